@@ -24,17 +24,18 @@ prop("C03", run="^TestC03", level="exploration",
      note="Trusted: gen.Frame version gating. Frames hit by the open LZ4 dependency finding are skipped (counted).",
      technique="property-based testing (rapid): length/consumption invariants over generated frames, frame sequences and primitive values", design="DESIGN.md 4 C03")
 
-prop("C05", run="^TestC05", level="exploration",
+prop("C05", run="^(TestC05|FuzzC05$)", level="exploration", fuzz=("FuzzC05", 300),
      quick=(12, 400, 900), thorough=(12, 10000, 7200),
      rule=FRAME_GEN + " through the paths DecodeRawFrame+ConvertFromRawFrame, DecodeHeader+DecodeBody, DecodeHeader+DecodeRawBody, DecodeHeader+DiscardBody (seekable and not), "
           "ConvertToRawFrame+EncodeRawFrame, EncodeBody+EncodeHeader, each compared with DecodeFrame and each required to stop exactly at a sentinel; raw frames and frames decoded from a *bytes.Buffer must survive the caller reusing that buffer; "
           "on a header re-declaring a negative or shorter body length DecodeRawBody, DiscardBody(seekable) and DiscardBody(stream) must agree (all refuse / all consume exactly that many bytes); re-encode clause on valid and mutated "
-          "(flag/opcode/version/bit-flip/byte-set/trailing-garbage) inputs that still decode; non-trivial = non-empty body (paths) / mutated input that differs from the encoder's output (re-encode); distinct by frame or input hash",
+          "(flag/opcode/version/bit-flip/byte-set/trailing-garbage) inputs that still decode; non-trivial = non-empty body (paths) / mutated input that differs from the encoder's output (re-encode); distinct by frame or input hash. "
+          "Coverage-guided stage for the re-encode clause: native fuzz target FuzzC05(compressor, bytes) with the decode-encode-decode oracle inside; seed corpus (generated frames + committed corpus) replayed in both tiers, 300 s of fuzzing on all cores in the thorough tier, saved inputs confirmed in the isolated worker",
      assumptions=["compressed body lengths of frames containing wire maps may differ between two encodings (map order is free); uncompressed lengths must agree",
                   "an encode error on a mutated-but-decodable input is counted, not judged (the property presupposes the re-encode)"],
      text="Metamorphic exploration: every partial path must agree with the full codec on generated frames, and decode-encode-decode must be stable on generated and mutated wire inputs.",
      note="Trusted: canon equality. Panics during the first decode of a mutated input are C04's business and not judged here.",
-     technique="property-based testing (rapid): metamorphic relations between partial and full codec paths; byte-level mutation for the re-encode clause", design="DESIGN.md 4 C05")
+     technique="property-based testing (rapid): metamorphic relations between partial and full codec paths; byte-level mutation and coverage-guided native fuzzing (thorough tier) for the re-encode clause", design="DESIGN.md 4 C05, 7.6")
 
 prop("C19", run="^TestC19", level="exploration",
      quick=(1, 20000, 300), thorough=(16, 200000, 10800),
@@ -163,21 +164,24 @@ prop("C17", run="^TestC17", level="exploration",
      note="Trusted: the reflective filler/mutation walker and canon.RenderFull as the observation function.",
      technique="property-based testing (rapid): reflective value generation + mutation non-interference oracle over all copy-capable types", design="DESIGN.md 4 C17", exhaustive_claim=False)
 
-prop("C04", run="^TestC04", level="exploration",
+prop("C04", run="^(TestC04|FuzzC04$)", level="exploration", fuzz=("FuzzC04", 420),
      quick=(16, 600, 1200), thorough=(16, 30000, 10800),
      rule="hostile inputs for every decoding entry point of DESIGN.md Appendix B (frame x7 x {none,lz4,snappy}, 17 message codecs x 6 versions (also decoded under a different version), query/continuous-paging options, type descriptors incl. 524287-level nesting, "
           "22 primitive readers + ParseUuid, segments +-LZ4 with recomputed CRCs, lz4/snappy decompressors, datacodec.Decode for generated types into same-representation / other-representation / *interface{} / preferred / 14 deliberately wrong destinations, AuthCredentials.Unmarshal): "
           "a valid encoding (from the reference encoders, with field annotations) mutated by: annotated length/count/code/flags field := {-1,-2,MinInt32,0,1,2,0x7f,0x80,0xff,0x7fff,0x8000,0xffff,2^24,MaxInt32, true+-1, random} (one or two fields), truncation at a drawn offset, bit flip, byte insert/delete, "
           "splice with another valid encoding, re-wrapping as an independently compressed body, or random bytes (0..64 KiB, occasionally 1 MiB); plus SWEEPS: for every 100th (thorough 25th) generated base encoding (frame, message, descriptor, value families) EVERY truncation point (all prefixes up to 2 KiB, beyond every field boundary +-1) "
           "and EVERY annotated field (<= 24 per base, evenly spread) x every hostile value and its own value +-1, batched in one worker call that resumes behind items lost to memory exhaustion (base left after 16 such items). Each call runs in a worker process (3 GiB address space). Oracle: returns value or error; recovered panic, worker death not caused by memory exhaustion, or no return within 60 s twice = violation. "
-          "Non-trivial = input differs from the valid encoding; distinct by (entry point, input hash)",
-     assumptions=["memory exhaustion is not one of the property's failure modes: a worker killed by its address-space limit is counted as 'skipped: resource exhaustion', never as a violation",
+          "Non-trivial = input differs from the valid encoding; distinct by (entry point, input hash). "
+          "Coverage-guided stage: the native fuzz target FuzzC04(sel, data) runs the same entry-point table in-process with the same oracle; its seed corpus (400 valid encodings from the same generators + the committed corpus harness/props/testdata/fuzz/FuzzC04) is replayed as plain cases in both tiers; "
+          "the thorough tier then fuzzes for 420 s on all cores, every saved input is re-run in the isolated worker and only a failure confirmed there is a violation (executions and coverage-increasing inputs are reported as classes fuzz:*)",
+     assumptions=["the coverage-guided stage leaves out inputs whose LEADING [int] length (ReadBytes/ReadValue/ReadLongString/ReadReasonMap/lz4 length prefix/frame body length/LZ4 body length) exceeds the input: the library allocates (and zeroes) up to 2 GiB for them, seconds per execution; the rapid mutators cover exactly these under the address-space limit",
+                  "memory exhaustion is not one of the property's failure modes: a worker killed by its address-space limit is counted as 'skipped: resource exhaustion', never as a violation",
                   "error-path nesting of type descriptors is capped at depth 1500 (the library re-formats the error chain at every level: quadratic in the depth of the failure, minutes of CPU at 10000 levels; slow but terminating); well-formed nesting goes to the 1 MiB maximum and is altered within its first 3000 bytes only",
                   "non-termination is judged on the worker's CPU time: 60 s burned, or 60 s elapsed with the worker idle, twice; a call that is merely slow on a busy machine is given up after 10 minutes as 'slow' and not judged",
                   "follow-up calls on decoded descriptors (AsCql, NewCodec, PreferredGoType) only for descriptors <= 4 KiB (quadratic in depth)"],
      text="Structure-aware mutational fuzzing driven by rapid, one isolated execution per case, over all decoding entry points; finds panics/faults/hangs, cannot prove their absence.",
      note="Trusted: worker isolation and death classification (stderr signature); reference encoders supplying valid encodings and field annotations.",
-     technique="property-based structure-aware mutation fuzzing (rapid) with subprocess isolation; 'returns value or error' oracle", design="DESIGN.md 4 C04, 2.3, 3.8")
+     technique="property-based structure-aware mutation fuzzing (rapid) with subprocess isolation, plus coverage-guided native fuzzing (go test -fuzz) in the thorough tier whose saved inputs are confirmed in the isolated worker; 'returns value or error' oracle", design="DESIGN.md 4 C04, 2.3, 3.8, 7.6")
 
 prop("C09", run="^TestC09", level="exploration",
      quick=(8, 300, 900), thorough=(16, 12000, 7200),
